@@ -78,15 +78,10 @@ def gen_plan(rng, index, tier):
         for k in range(j * b, min((j + 1) * b, n)):
             out[k]["animals"] = []
     plan["provider"] = "labels" if mixed else rng.choice(["labels", "labels", "video"])
-    if kind == "topdown" and not plan.get("gt_centroids") and rng.random() < 0.15:
+    if kind == "topdown" and not plan.get("gt_centroids") and rng.random() < 0.25:
         plan["centroid_only"] = True  # centroid model alone (FindInstancePeaksGroundTruth): needs the labelled instances
     if plan.get("gt_centroids") or plan.get("centroid_only"):
         plan["provider"] = "labels"
-    if plan.get("centroid_only"):
-        # partially labelled frames: the image shows an animal the labels lack, so more centroids are detected than instances are labelled
-        for fr in plan["frames"]:
-            if len(fr["animals"]) >= 2 and rng.random() < 0.4:
-                fr["unlabelled"] = [rng.randrange(len(fr["animals"]))]
     if plan["provider"] == "labels":
         plan["same_filename"] = rng.random() < 0.3  # both videos embedded in one package file
         fidxs = list(range(14))
@@ -121,6 +116,47 @@ def gen_plan(rng, index, tier):
             a[:, 0] = np.clip(a[:, 0], 0.5, fW - 1.5)
             a[:, 1] = np.clip(a[:, 1], 0.5, fH - 1.5)
             fr["animals"] = [a.tolist()]
+    if plan.get("centroid_only"):
+        if not plan["border"]:
+            # no crops in this mode: animals only need to be resolvable by the centroid stage, so frames can hold more of them
+            c = plan["centroid"]
+            bs = plan.get("blob_sigma", 0.0) if plan.get("frame_kind") == "blob" else 0.0
+            for fr in plan["frames"]:
+                if not fr["animals"] or rng.random() < 0.3:
+                    continue
+                fH, fW = pw.frame_hw(plan, fr)
+                sig = c["scale"] * c02.eff_scale(fH, fW, plan["max_hw"][0], plan["max_hw"][1])[0]
+                ext = 4.0
+                margin = 4.0 * c["stride"] / sig + 3.0 + ext + 2.0 * bs
+                sep = 8.0 * c["stride"] / sig + 2 * ext + 2.0 + 8.0 * bs
+                if 2 * margin + 4 > min(fH, fW):
+                    continue
+                cents, animals = [], []
+                for _a in range(rng.randint(2, 4)):
+                    for _t in range(30):
+                        cx, cy = rng.uniform(margin, fW - 1 - margin), rng.uniform(margin, fH - 1 - margin)
+                        if all(max(abs(cx - q[0]), abs(cy - q[1])) > sep for q in cents):
+                            cents.append((cx, cy))
+                            pts = [[cx + rng.uniform(-ext / 2, ext / 2), cy + rng.uniform(-ext / 2, ext / 2)] for _ in range(plan["n_nodes"])]
+                            if plan["n_nodes"] > 1 and rng.random() < 0.3:
+                                for j in rng.sample(range(plan["n_nodes"]), rng.randint(1, plan["n_nodes"] - 1)):
+                                    pts[j] = [float("nan"), float("nan")]
+                            animals.append(pts)
+                            break
+                if animals:
+                    fr["animals"] = animals
+        # partially labelled frames: the image shows an animal the labels lack, so more centroids are detected than instances are labelled
+        if rng.random() < 0.5:
+            # sparsely labelled project: at most `lab` animals are labelled in any frame, so the instance table is narrower than
+            # the number of centroids some frames produce
+            lab = rng.choice([1, 1, 2])
+            for fr in plan["frames"]:
+                if len(fr["animals"]) > lab:
+                    fr["unlabelled"] = sorted(rng.sample(range(len(fr["animals"])), len(fr["animals"]) - lab))
+        else:
+            for fr in plan["frames"]:
+                if len(fr["animals"]) >= 2 and rng.random() < 0.4:
+                    fr["unlabelled"] = [rng.randrange(len(fr["animals"]))]
     if kind == "topdown":
         plan["max_instances"] = rng.choice([None, 1, 1, 2, 2])
         if plan.get("gt_centroids"):
@@ -258,13 +294,17 @@ def execute(plan, choices=None):
               "partial_last_batch": 0, "fault_cut_stream": 0, "permuted_run_compared": 0, "two_videos": 0, "degenerate_tie_scene_skipped": 0,
               "border_scene": int(bool(plan.get("border"))), "whole_batch_empty": 0, "batch_larger_than_paf_grid": int(bool(plan.get("tiny"))), "mixed_frame_sizes": int("sizes" in plan and len({tuple(x) for x in plan["sizes"]}) > 1),
               "ground_truth_centroid_runs": int(bool(plan.get("gt_centroids"))), "centroid_only_runs": int(bool(plan.get("centroid_only"))),
-              "videos_share_file_name": int(bool(plan.get("same_filename"))), "partially_labelled_frames": sum(1 for f in plan["frames"] if f.get("unlabelled"))}
+              "videos_share_file_name": int(bool(plan.get("same_filename"))), "partially_labelled_frames": sum(1 for f in plan["frames"] if f.get("unlabelled")),
+              "more_centroids_than_label_table_rows": 0}
 
     def V(kind, where, detail):
         violations.append({"kind": kind, "sig": f"{kind}:{where}", "detail": detail})
 
     kind, prov = plan["kind"], plan["provider"]
     frames = plan["frames"]
+    if plan.get("centroid_only"):
+        width = max([len(f["animals"]) - len(f.get("unlabelled", ())) for f in frames] + [1])
+        probes["more_centroids_than_label_table_rows"] = sum(1 for f in frames if len(f["animals"]) > width)
     n = len(frames)
     digests = []
 
